@@ -124,6 +124,10 @@ func (conn *Conn) recv() {
 			req := new(SrvReq)
 			select {
 			case req.Rc = <-conn.rchan:
+				/* the buffer may be older than the negotiated msize */
+				if len(req.Rc.Buf) > int(conn.Msize) {
+					req.Rc.Buf = req.Rc.Buf[0:conn.Msize]
+				}
 			default:
 				req.Rc = NewFcall(conn.Msize)
 			}
